@@ -565,8 +565,12 @@ def sync_aware_insertion(state: VRPState, rng: Random) -> VRPState:
             state.unassigned.remove(cid)
             state.sync_assignments[cid] = {v for v, _ in best_insertions}
 
+    # Multi-vehicle customers that found no vehicles stay unassigned; only the single-vehicle ones go
+    # through regret insertion (which would put a multi-vehicle customer on one route only)
+    unplaced = state.unassigned - set(single)
     state.unassigned = set(single)
     state = regret_insertion(state, rng)
+    state.unassigned.update(unplaced)
 
     state.update_arrival_times()
     return state
